@@ -279,6 +279,11 @@ func runCheck(prop, tier string) int {
 		deadline = spec.ThoroDL
 	}
 	known := loadKnown()
+	if old, _ := filepath.Glob(filepath.Join(buildDir, "out", spec.Test+"."+tier+".*")); len(old) > 0 {
+		for _, f := range old {
+			_ = os.Remove(f)
+		}
+	}
 
 	var mu sync.Mutex
 	var results []result
